@@ -206,7 +206,7 @@ Ltac go I Epc := cbn [fst snd]; rewrite ?g_step_noev; destruct I; rewrite Epc in
 Lemma step_mon_inv g s :
   Inv g s -> Inv (g_step g (Step Mon) (snd (step_mon raises s))) (fst (step_mon raises s)).
 Proof.
-  intros I. pose proof (lock_mon_reg s g) as Hmr. unfold step_mon. destruct (m_pc s) eqn:Epc.
+  intros I. pose proof (fun t => lock_mon_reg s g t I) as Hmr. unfold step_mon. destruct (m_pc s) eqn:Epc.
   - (* MAcq1 *)
     destruct (lock s) eqn:El; [exact I|].
     pose proof (i_lock_reg _ _ I) as Hlr. go I Epc.
@@ -252,7 +252,7 @@ Proof.
     + intros t H. apply Hobj in H. apply i_active0. tauto.
     + intros t H1 H2. destruct (i_owed0 t H1 H2) as [H|H]; [|rewrite Hn in H; destruct H].
       destruct (in_dec Nat.eq_dec t (m_done s)) as [Hd|Hd]; [right; exact Hd|left; apply Hobj; tauto].
-    + intros t r E. exfalso. apply (Hmr t); [rewrite Epc; exact Logic.I|rewrite E; exact Logic.I].
+    + intros t r E. exfalso. apply (Hmr t); [exact Logic.I|rewrite E; exact Logic.I].
   - (* MRel1 *)
     pose proof (i_lock_reg _ _ I) as Hlr.
     assert (Hlm : lock s = Some Mon) by (apply (i_lock_mon _ _ I); rewrite Epc; exact Logic.I).
@@ -294,4 +294,147 @@ Proof.
     all: try solve [intros t; split; [discriminate|]; intros H; apply Hlr in H; congruence].
   - (* MRelExc *) elim (i_noexc _ _ I Epc).
   - (* MExited *) exact I.
+Qed.
+
+Lemma step_reg_inv g s t :
+  Inv g s -> Inv (g_step g (Step (Reg t)) (snd (step_reg s t))) (fst (step_reg s t)).
+Proof.
+  intros I. pose proof (fun x => lock_mon_reg s g x I) as Hmr.
+  pose proof (i_lock_reg _ _ I) as Hlr. pose proof (i_lock_mon _ _ I) as Hlm.
+  unfold step_reg. destruct (regs s t) eqn:Er; try exact I.
+  - (* RAcq: BEFORE_WITH *)
+    destruct (lock s) eqn:El; [exact I|].
+    cbn [fst snd]; rewrite g_step_noev. destruct I. constructor; simpl; eauto.
+    all: try solve [intros x H; sr x t; [discriminate|auto]].
+    all: try solve [intros x H; specialize (i_rg0 x H); sr x t; [intuition congruence|auto]].
+    all: try solve [intros d H; pose proof (i_done_dead0 d H); sr d t; [congruence|auto]].
+    all: try solve [intros d H; pose proof (i_cl_dead0 d H); sr d t; [congruence|auto]].
+    all: try solve [intros d H; destruct (i_cbs0 d H) as (? & ? & ?); sr d t; [congruence|auto]].
+    all: try solve [intros x H1 H2; sr x t; [elim H1|auto]].
+    all: try solve [intros x r' H; sr x t; [discriminate|eauto]].
+    all: try solve [split; [discriminate|]; intros H; apply Hlm in H; congruence].
+    all: try solve [discriminate].
+    intros x. sr x t; [simpl; intuition|].
+    split; [intros H; injection H; congruence|]. intros H. apply Hlr in H. congruence.
+  - (* RLoad: LOAD_ATTR _active *)
+    cbn [fst snd]; rewrite g_step_noev. destruct I. constructor; simpl; eauto.
+    all: try solve [intros x H; sr x t; [discriminate|auto]].
+    all: try solve [intros x H; specialize (i_rg0 x H); sr x t; [intuition congruence|auto]].
+    all: try solve [intros d H; pose proof (i_done_dead0 d H); sr d t; [congruence|auto]].
+    all: try solve [intros d H; pose proof (i_cl_dead0 d H); sr d t; [congruence|auto]].
+    all: try solve [intros d H; destruct (i_cbs0 d H) as (? & ? & ?); sr d t; [congruence|auto]].
+    all: try solve [intros x H1 H2; sr x t; [elim H1|auto]].
+    all: try solve [intros x r' H; sr x t; [congruence|eauto]].
+    intros x. sr x t; [|apply Hlr]. rewrite Hlr, Er. simpl. tauto.
+  - (* RAdd r: CALL add *)
+    assert (Hl : reg_locked (regs s t)) by (rewrite Er; exact Logic.I).
+    assert (Hnm : ~ mon_locked (m_pc s)) by (intros H; exact (Hmr t H Hl)).
+    pose proof (i_radd _ _ I t r Er) as ->. pose proof (i_bound _ _ I) as Hb.
+    cbn [fst snd]; rewrite g_step_noev. destruct I. constructor; simpl; rewrite ?length_upd; eauto.
+    all: try solve [intros x H; sr x t; [discriminate|auto]].
+    all: try solve [intros x H; specialize (i_rg0 x H); sr x t; [intuition congruence|auto]].
+    all: try solve [intros d H; pose proof (i_done_dead0 d H); sr d t; [congruence|auto]].
+    all: try solve [intros d H; pose proof (i_cl_dead0 d H); sr d t; [congruence|auto]].
+    all: try solve [intros x r' H; sr x t; [discriminate|eauto]].
+    all: try solve [intros H; exfalso; apply Hnm; destruct (m_pc s); simpl in *; tauto].
+    all: try solve [intros n E; exfalso; apply Hnm; rewrite E; exact Logic.I].
+    all: try solve [intros x E; exfalso; apply Hnm; rewrite E; exact Logic.I].
+    all: try solve [intros [E|E]; exfalso; apply Hnm; rewrite E; exact Logic.I].
+    + (* i_cbs *) intros d H. destruct (i_cbs0 d H) as (H1 & H2 & H3).
+      sr d t; [congruence|]. split; [assumption|]. split; [assumption|].
+      intros H4. apply In_obj_add in H4. destruct H4 as [H4|(-> & _)]; tauto.
+    + (* i_active *) intros x H1 H2. apply In_obj_add in H1. destruct H1 as [H1|(-> & _)]; [exact (i_active0 x H1 H2)|].
+      specialize (i_cl_dead0 t H2). congruence.
+    + (* i_owed *) intros x H1 H2. sr x t.
+      * left. rewrite obj_upd_same by assumption. apply In_ins. tauto.
+      * destruct (i_owed0 x H1 H2) as [H|H]; [left; apply obj_add_mono; exact H|right; exact H].
+    + (* i_lock_reg *) intros x. sr x t; [|apply Hlr]. rewrite Hlr, Er. simpl. tauto.
+  - (* RRel: release; register() returns *)
+    assert (Hl : lock s = Some (Reg t)) by (apply Hlr; rewrite Er; exact Logic.I).
+    cbn [fst snd]. unfold g_step; simpl. destruct I. constructor; simpl; eauto.
+    all: try solve [intros x H; sr x t; [discriminate|]; destruct (i_dead0 x H); auto].
+    all: try solve [intros x H; sr x t; [left; reflexivity|right; auto]].
+    all: try solve [intros x [<-|H]; [rewrite set_reg_eq; left; reflexivity|]; specialize (i_rg0 x H); sr x t; [intuition congruence|auto]].
+    all: try solve [intros x H; right; auto].
+    all: try solve [intros d H; pose proof (i_done_dead0 d H); sr d t; [congruence|auto]].
+    all: try solve [intros d H; pose proof (i_cl_dead0 d H); sr d t; [congruence|auto]].
+    all: try solve [intros d H; destruct (i_cbs0 d H) as (? & ? & ?); sr d t; [congruence|auto]].
+    all: try solve [intros x H1 H2; sr x t; [apply i_owed0; [rewrite Er; exact Logic.I|assumption]|auto]].
+    all: try solve [intros x r' H; sr x t; [discriminate|eauto]].
+    all: try solve [split; [discriminate|]; intros H; apply Hlm in H; congruence].
+    all: try solve [discriminate].
+    intros x. split; [discriminate|]. sr x t; [intros []|]. intros H. apply Hlr in H. congruence.
+Qed.
+
+Lemma step_closer_inv g s :
+  Inv g s -> Inv (g_step g (Step Closer) (snd (step_closer s))) (fst (step_closer s)).
+Proof.
+  intros I. unfold step_closer. destruct (closer s) eqn:Ec; try exact I.
+  - cbn [fst snd]; rewrite g_step_noev. destruct I. constructor; simpl; eauto;
+      try (intros; discriminate); try (intros e H; specialize (i_cr0 e H); congruence).
+    intros e E. destruct (i_exit0 e E) as (? & ? & ?). intuition discriminate.
+  - cbn [fst snd]; rewrite g_step_noev. destruct I. constructor; simpl; eauto;
+      try (intros; discriminate); try (intros e H; specialize (i_cr0 e H); congruence).
+    intros e E. destruct (i_exit0 e E) as (? & ? & ?). intuition discriminate.
+  - cbn [fst snd]; rewrite g_step_noev. destruct I. constructor; simpl; eauto;
+      try (intros; discriminate); try (intros e H; specialize (i_cr0 e H); congruence).
+    intros e E. destruct (i_exit0 e E) as (? & ? & ?). intuition discriminate.
+  - destruct (m_pc s) eqn:Epc; cbn [fst snd]; unfold g_step; simpl; destruct I; constructor; simpl; eauto;
+      try (intros e' H; specialize (i_cr0 e' H); congruence); try (intros; discriminate).
+    all: try solve [intros e' E; destruct (i_exit0 e' E) as (? & ? & ?); intuition discriminate].
+    all: try solve [intros e' [<-|H]; [reflexivity|]; specialize (i_cr0 e' H); congruence].
+    all: try solve [intros e' E; injection E as <-; assumption].
+Qed.
+
+Lemma step_inv g s l :
+  Inv g s -> Inv (g_step g l (snd (step raises s l))) (fst (step raises s l)).
+Proof.
+  intros I. destruct l as [t|[| |t]|t|]; simpl.
+  - (* Arrive *)
+    pose proof (i_lock_reg _ _ I) as Hlr.
+    destruct (regs s t) eqn:Er; try exact I.
+    cbn [fst snd]. unfold g_step; simpl. destruct I. constructor; simpl; eauto.
+    all: try solve [intros x H; sr x t; [discriminate|auto]].
+    all: try solve [intros x H; specialize (i_rg0 x H); sr x t; [intuition congruence|auto]].
+    all: try solve [intros d H; pose proof (i_done_dead0 d H); sr d t; [congruence|auto]].
+    all: try solve [intros d H; pose proof (i_cl_dead0 d H); sr d t; [congruence|auto]].
+    all: try solve [intros d H; destruct (i_cbs0 d H) as (? & ? & ?); sr d t; [congruence|auto]].
+    all: try solve [intros x H1 H2; sr x t; [elim H1|auto]].
+    all: try solve [intros x r' H; sr x t; [discriminate|eauto]].
+    intros x. sr x t; [|apply Hlr]. rewrite Hlr, Er. simpl. tauto.
+  - apply step_mon_inv; assumption.
+  - apply step_closer_inv; assumption.
+  - apply step_reg_inv; assumption.
+  - (* Die *)
+    pose proof (i_lock_reg _ _ I) as Hlr.
+    destruct (regs s t) eqn:Er; try exact I.
+    cbn [fst snd]. unfold g_step; simpl. destruct I. constructor; simpl; eauto.
+    all: try solve [intros x H; sr x t; [split; [left; reflexivity|auto]|]; destruct (i_dead0 x H); split; [right|]; assumption].
+    all: try solve [intros x H; sr x t; [discriminate|auto]].
+    all: try solve [intros x H; specialize (i_rg0 x H); sr x t; [right; reflexivity|auto]].
+    all: try solve [intros d H; pose proof (i_done_dead0 d H); sr d t; [reflexivity|auto]].
+    all: try solve [intros d H; pose proof (i_cl_dead0 d H); sr d t; [reflexivity|auto]].
+    all: try solve [intros d H; destruct (i_cbs0 d H) as (? & ? & ?); sr d t; [congruence|auto]].
+    all: try solve [intros x H1 H2; sr x t; [apply i_owed0; [rewrite Er; exact Logic.I|assumption]|auto]].
+    all: try solve [intros x r' H; sr x t; [discriminate|eauto]].
+    intros x. sr x t; [|apply Hlr]. rewrite Hlr, Er. simpl. tauto.
+  - (* CloseCall *)
+    destruct (closer s) eqn:Ec; try exact I.
+    cbn [fst snd]. unfold g_step; simpl. destruct I. constructor; simpl; eauto; try (intros; discriminate).
+    + intros e E. destruct (i_exit0 e E) as (? & ? & F). elim F. exact Ec.
+    + intros e H. specialize (i_cr0 e H). congruence.
+Qed.
+
+End Steps.
+
+Lemma grun_inv raises ls : forall g s, Inv g s ->
+  Inv (fst (grun_from raises g s ls)) (snd (grun_from raises g s ls)).
+Proof.
+  induction ls as [|l r IH]; intros g s I; simpl; [exact I|].
+  pose proof (step_inv raises g s l I) as I'. destruct (step raises s l) as [s' o]. apply IH. exact I'.
+Qed.
+
+Theorem Inv_run raises ls : Inv (ghost_of (history raises ls)) (run raises ls).
+Proof.
+  pose proof (grun_inv raises ls g0 init Inv_init) as H. rewrite grun_spec in H. exact H.
 Qed.
